@@ -164,7 +164,7 @@ def settle_ms(c):
     """how long the recording waits at the end for delayed sends (0: the chart has none)"""
     if not hasattr(c, "_settle"):
         d = c.max_delay()
-        c._settle = 0 if d == 0 else (max(400, 12 * d) if d < 100 else 3 * d)
+        c._settle = 0 if d == 0 else (max(800, 20 * d) if d < 100 else 3 * d)
     return c._settle
 
 
@@ -304,6 +304,30 @@ def run_campaign(cp, workdir, engines=("large", "fast"), nshards=NCPU, maxsteps=
                 v["judge"] = "monitor"
                 verdicts.append(v)
             shutil.rmtree(md, ignore_errors=True)
+    # timing verdicts (a delayed event that did not arrive while the recording waited) are reported only if a second
+    # recording of the same case, alone on the machine's cores, repeats them
+    timing = [v for v in verdicts if v.get("why") == "delayed-event-lost"]
+    if timing:
+        byid = {cs["id"]: cs for cs in cp.cases}
+        repeated = set()
+        for eng in engines:
+            ids = sorted(set(v["case"] for v in timing if v["exec"] == eng))
+            if not ids:
+                continue
+            b = os.path.join(workdir, "confirm.%s.batch" % eng)
+            tr = os.path.join(workdir, "confirm.%s.ndjson" % eng)
+            write_batch(cp, [byid[i] for i in ids], eng, b, {})
+            run_parallel([[os.path.join(BIN, "interp_trace"), b, tr, "10"]], env={"VERIF_MAXSTEPS": str(maxsteps), "USCXML_NOCACHE_FILES": "YES"}, timeout=3000)
+            md = os.path.join(workdir, "meta.confirm.%s" % eng)
+            cmd = tlc_cmd("Trace_Step.tla", cfgp, md)
+            cmd[cmd.index("-config") + 1] = cfgp
+            (rc, out), = run_parallel([cmd], env={"CHARTS": charts_file, "TRACE": tr}, timeout=3000)
+            p = parse_tlc(out)
+            shutil.rmtree(md, ignore_errors=True)
+            if not (p["ok"] and p["error"] is None):
+                failures.append({"job": "confirm", "shard": -1, "exec": eng, "rc": rc, "tail": out[-1500:]})
+            repeated |= set((eng, v["case"]) for v in p["verdicts"] if v.get("why") == "delayed-event-lost")
+        verdicts = [v for v in verdicts if v.get("why") != "delayed-event-lost" or (v["exec"], v["case"]) in repeated]
     # statistics straight from the recorded files
     ncalls = 0
     for si in range(len(shards)):
